@@ -24,7 +24,7 @@ def run_one(m):
     d = tempfile.mkdtemp(prefix="pvmut-")
     try:
         repo = os.path.join(d, "repo")
-        shutil.copytree("/repo", repo, ignore=shutil.ignore_patterns("target", ".git"))
+        shutil.copytree(os.environ.get("PV_BASE", "/repo"), repo, ignore=shutil.ignore_patterns("target", ".git"))
         if m.get("patch"):
             r = subprocess.run(["patch", "-p1", "-s", "-i", m["patch"]], cwd=repo, capture_output=True, text=True)
             if r.returncode != 0:
